@@ -12,6 +12,7 @@ st = subprocess.run(["git", "-C", "/repo", "status", "--porcelain"], capture_out
 if st:
     print("refusing: /repo is not clean"); sys.exit(2)
 for p in sys.argv[1:]:
+    p = os.path.abspath(p)
     r = subprocess.run(["git", "-C", "/repo", "apply", p], capture_output=True, text=True)
     if r.returncode != 0:
         print(f"{os.path.basename(p)}: DOES NOT APPLY {r.stderr.strip()[:200]}"); continue
